@@ -29,7 +29,7 @@ func fmtGomod() *format {
 			{name: "trail", labels: trailLabels},
 			{name: "header", labels: []string{"module-only", "go-1.21", "go+toolchain"}},
 			{name: "style", labels: []string{"one-block", "single-line-requires", "direct+indirect-blocks"}},
-			{name: "comment", labels: []string{"none", "comments"}},
+			{name: "comment", labels: []string{"none", "comments", "comments-quoting-active-syntax"}},
 			{name: "blank", labels: []string{"none", "blank-lines-in-blocks"}},
 			{name: "extra", labels: []string{"none", "exclude-retract-unrelated-replace"}},
 			{name: "order", labels: []string{"require-first", "replace-exclude-first"}},
@@ -47,7 +47,13 @@ func fmtGomod() *format {
 	f.gen = func(recs []rec, lay []int) genOut {
 		l := layout{f, lay}
 		ri, rk := l.at("replaced")
-		cm := l.get("comment") == 1
+		cm := l.get("comment") >= 1
+		pinned, keep, fork := " // pinned", "// keep sorted", "// use our fork until upstream merges the fix"
+		if l.get("comment") == 2 { // comment texts that look like directives must stay inert
+			pinned = " // replace example.com/not/required => example.com/not/fork v9.9.9"
+			keep = "// example.com/not/required v9.9.9 // indirect"
+			fork = "// ) require ( example.com/not/required v9.9.9"
+		}
 		var truth []rec
 		var head, req, other []string
 		if cm {
@@ -67,7 +73,7 @@ func fmtGomod() *format {
 			if indirect {
 				s += " // indirect"
 			} else if cm && i%2 == 0 {
-				s += " // pinned"
+				s += pinned
 			}
 			return s
 		}
@@ -88,7 +94,7 @@ func fmtGomod() *format {
 					out = append(out, "")
 				}
 				if cm && k == 0 {
-					out = append(out, "\t// keep sorted")
+					out = append(out, "\t"+keep)
 				}
 				out = append(out, "\t"+entry(i, recs[i], indirect))
 			}
@@ -129,7 +135,7 @@ func fmtGomod() *format {
 				old += " " + recs[ri].Version
 			}
 			if cm {
-				other = append(other, "// use our fork until upstream merges the fix")
+				other = append(other, fork)
 			}
 			if l.get("extra") == 1 {
 				other = append(other, "replace (", "\t"+old+" => example.com/fork/r v1.4.5", ")", "")
